@@ -18,6 +18,16 @@ is NOT proved: it is measured on every run by `harness/corr/c06_inv.cpp` (labell
   The affine arms (last column `(0,…,0,1)`) look only at the cofactors of the LINEAR block; when they
   accept, their result is the general `det⁻¹ • adjugate` of the full matrix (`…_affine_eq_general`):
   no jump in exact arithmetic.
+* WHAT `det M ≠ 0` GIVES (and what it does not).  `det M ≠ 0` does NOT imply that the guards pass (false for a tiny
+  determinant: `example`s below with `det = 1/8`, `tmin = 1/4`).  Proved instead (`…_inverse_true_iff`, `0 < tmin`): for
+  `det M ≠ 0`, `inverse()` returns the true inverse IF AND ONLY IF `|det| ≥ 1` or every entry of the exact inverse of the
+  block the arm guards (the whole matrix; the linear block on the affine arms) is below `1 / tmin` in magnitude — i.e. the
+  identity is returned for an invertible matrix exactly when a quotient the code would form reaches `1 / tmin`.
+* The two arms DECIDE differently on an affine matrix only in that regime (`M33_arms_disagree_iff`: the 2×2 block guards pass
+  but a translation cofactor `adjugate 2 j` fails the general arm's guard, i.e. `|X 2 j| ≥ 1 / tmin`; `M44_affine_vs_gj`: the
+  fast path returns the identity and Gauss-Jordan the true inverse iff `det ≠ 0`, `|det| < 1` and a block guard fails).  So
+  "no jump" holds for the VALUE whenever the fast path accepts (`…_affine_eq_general`) and for the DECISION whenever all
+  entries of the exact inverse are below `1 / tmin`.
 * `Matrix44::inverse` of a non-affine matrix is `gjInverse` (opaque call of the hand model).
 * Gauss-Jordan (`Model/GaussJordan.lean`, tied to the real code bit for bit by the correspondence
   harness), for EVERY dimension `n` (so n = 3 and n = 4 in particular, nothing left `_partial`):
@@ -70,7 +80,22 @@ theorem M22_inverse_singular (tmin : α) (a : M22 α) (h : a.toMat.det = 0) : (G
 /-- `invert()` leaves exactly what `inverse()` returns -/
 theorem M22_invert_eq_inverse (tmin : α) (a : M22 α) : Gen.M22.invert tmin a = Gen.M22.inverse tmin a := rfl
 
+/-- for an invertible matrix: the true inverse is returned iff `|det| ≥ 1` or every entry of the exact inverse is below `1 / tmin` -/
+theorem M22_inverse_true_iff (tmin : α) (ht : 0 < tmin) (a : M22 α) (hd : a.toMat.det ≠ 0) :
+    (Gen.M22.inverse tmin a).toMat = (a.toMat.det)⁻¹ • a.toMat.adjugate ↔
+      (1 ≤ |a.toMat.det| ∨ ∀ i j, |((a.toMat.det)⁻¹ • a.toMat.adjugate) i j| < 1 / tmin) := by
+  rw [M22_inverse_spec, ite_eq_inverse_iff _ hd _ Or.inl]
+  refine or_congr Iff.rfl (forall_congr' fun i => forall_congr' fun j => ?_)
+  rw [Matrix.smul_apply, smul_eq_mul]; exact guard_iff_quot_lt hd ht
+
 example : (1 : ℚ) ≤ |(⟨2, 1, 1, 1⟩ : M22 ℚ).toMat.det| := by simp [M22.toMat, Matrix.det_fin_two]; norm_num
+/-- the overflow-singular outcome is reachable: `det = 1/8 ≠ 0`, but with `tmin = 1/4` the guard `1 < (1/8)/(1/4)` fails ⇒ identity -/
+example : (⟨1 / 8, 0, 0, 1⟩ : M22 ℚ).toMat.det ≠ 0 ∧ Gen.M22.inverse (1 / 4 : ℚ) ⟨1 / 8, 0, 0, 1⟩ = ⟨1, 0, 0, 1⟩ := by
+  constructor
+  · simp [M22.toMat, Matrix.det_fin_two]
+  · norm_num [Gen.M22.inverse, sabs]
+/-- … and with `det = 1/2` the same `tmin` lets all four guards pass -/
+example : Gen.M22.inverse (1 / 4 : ℚ) ⟨1 / 2, 0, 0, 1⟩ = ⟨2, 0, 0, 1⟩ := by norm_num [Gen.M22.inverse, sabs]
 /-- the guarded branch is not vacuous: `|det| = 1/2 < 1`, all four guards pass with `tmin = 2⁻¹⁰` -/
 example : ¬ (1 : ℚ) ≤ |(⟨1, 0, 0, 1 / 2⟩ : M22 ℚ).toMat.det| ∧
     ∀ i j, |(⟨1, 0, 0, 1 / 2⟩ : M22 ℚ).toMat.adjugate i j| < |(⟨1, 0, 0, 1 / 2⟩ : M22 ℚ).toMat.det| / (1 / 1024) := by
@@ -160,6 +185,133 @@ theorem M33_inverse_singular (tmin : α) (a : M33 α) (h : a.toMat.det = 0) : (G
 
 theorem M33_invert_eq_inverse (tmin : α) (a : M33 α) : Gen.M33.invert tmin a = Gen.M33.inverse tmin a := rfl
 
+theorem M33_inverse_true_iff (tmin : α) (ht : 0 < tmin) (a : M33 α) (hna : ¬ a.IsAffine) (hd : a.toMat.det ≠ 0) :
+    (Gen.M33.inverse tmin a).toMat = (a.toMat.det)⁻¹ • a.toMat.adjugate ↔
+      (1 ≤ |a.toMat.det| ∨ ∀ i j, |((a.toMat.det)⁻¹ • a.toMat.adjugate) i j| < 1 / tmin) := by
+  rw [M33_inverse_spec tmin a hna, ite_eq_inverse_iff _ hd _ Or.inl]
+  refine or_congr Iff.rfl (forall_congr' fun i => forall_congr' fun j => ?_)
+  rw [Matrix.smul_apply, smul_eq_mul]; exact guard_iff_quot_lt hd ht
+
+/-- determinant of an affine 3×3 matrix = determinant of its linear block -/
+theorem M33_det_affine (a : M33 α) (ha : a.IsAffine) : a.toMat.det = a.linear.toMat.det := by
+  obtain ⟨h02, h12, h22⟩ := ha
+  rw [M33_det_canon, M22_det_canon, h02, h12, h22]; simp [M33.linear] <;> ring
+
+/-- affine arm: the entries in question are those of the exact inverse of the 2×2 linear block -/
+theorem M33_inverse_affine_true_iff (tmin : α) (ht : 0 < tmin) (a : M33 α) (ha : a.IsAffine) (hd : a.toMat.det ≠ 0) :
+    (Gen.M33.inverse tmin a).toMat = (a.toMat.det)⁻¹ • a.toMat.adjugate ↔
+      (1 ≤ |a.toMat.det| ∨ ∀ i j, |((a.linear.toMat.det)⁻¹ • a.linear.toMat.adjugate) i j| < 1 / tmin) := by
+  rw [M33_inverse_affine_spec tmin a ha, ite_eq_inverse_iff _ hd _ Or.inl]
+  refine or_congr Iff.rfl (forall_congr' fun i => forall_congr' fun j => ?_)
+  rw [Matrix.smul_apply, smul_eq_mul, ← M33_det_affine a ha]; exact guard_iff_quot_lt hd ht
+
+/-! ### when do the two arms decide differently?
+
+The general arm guards all nine cofactors, the affine arm only the four of the linear block.  On an affine matrix
+(`adjugate 0 2 = adjugate 1 2 = 0`, `adjugate 2 2 = det`, upper-left block = adjugate of the linear block) the nine guards
+are the four block guards plus the two TRANSLATION cofactors `adjugate 2 0`, `adjugate 2 1` (for `0 < tmin < 1`). -/
+
+theorem M33_general_guard_iff (tmin : α) (a : M33 α) (ha : a.IsAffine) (ht0 : 0 < tmin) (ht1 : tmin < 1) :
+    (∀ i j, |a.toMat.adjugate i j| < |a.toMat.det| / tmin) ↔
+      ((∀ i j, |a.linear.toMat.adjugate i j| < |a.toMat.det| / tmin) ∧
+        |a.toMat.adjugate 2 0| < |a.toMat.det| / tmin ∧ |a.toMat.adjugate 2 1| < |a.toMat.det| / tmin) := by
+  obtain ⟨h02, h12, h22⟩ := ha
+  have hdet : a.toMat.det = a.x00 * a.x11 - a.x01 * a.x10 := by rw [M33_det_canon, h02, h12, h22]; ring
+  have e00 : a.toMat.adjugate 0 0 = a.linear.toMat.adjugate 0 0 := by
+    simp [Matrix.adjugate_fin_three, Matrix.adjugate_fin_two, M33.toMat, M33.linear, M22.toMat, h02, h12, h22]
+  have e01 : a.toMat.adjugate 0 1 = a.linear.toMat.adjugate 0 1 := by
+    simp [Matrix.adjugate_fin_three, Matrix.adjugate_fin_two, M33.toMat, M33.linear, M22.toMat, h02, h12, h22]
+  have e10 : a.toMat.adjugate 1 0 = a.linear.toMat.adjugate 1 0 := by
+    simp [Matrix.adjugate_fin_three, Matrix.adjugate_fin_two, M33.toMat, M33.linear, M22.toMat, h02, h12, h22]
+  have e11 : a.toMat.adjugate 1 1 = a.linear.toMat.adjugate 1 1 := by
+    simp [Matrix.adjugate_fin_three, Matrix.adjugate_fin_two, M33.toMat, M33.linear, M22.toMat, h02, h12, h22]
+  have e02 : a.toMat.adjugate 0 2 = 0 := by
+    simp [Matrix.adjugate_fin_three, M33.toMat, h02, h12, h22]
+  have e12 : a.toMat.adjugate 1 2 = 0 := by
+    simp [Matrix.adjugate_fin_three, M33.toMat, h02, h12, h22]
+  have e22 : a.toMat.adjugate 2 2 = a.toMat.det := by
+    rw [hdet]; simp [Matrix.adjugate_fin_three, M33.toMat, h02, h12, h22] <;> ring
+  constructor
+  · intro h
+    refine ⟨fun i j => ?_, h 2 0, h 2 1⟩
+    fin_cases i <;> fin_cases j
+    · simpa [e00] using h 0 0
+    · simpa [e01] using h 0 1
+    · simpa [e10] using h 1 0
+    · simpa [e11] using h 1 1
+  · rintro ⟨hb, h20, h21⟩
+    have hd : a.toMat.det ≠ 0 := det_ne_zero_of_guard (Or.inr (hb 0 0))
+    have hpos : 0 < |a.toMat.det| / tmin := div_pos (abs_pos.mpr hd) ht0
+    have hlt : |a.toMat.det| < |a.toMat.det| / tmin := by
+      rw [lt_div_iff₀ ht0]; nlinarith [abs_pos.mpr hd]
+    intro i j
+    fin_cases i <;> fin_cases j
+    · simpa [e00] using hb 0 0
+    · simpa [e01] using hb 0 1
+    · simpa [e02] using hpos
+    · simpa [e10] using hb 1 0
+    · simpa [e11] using hb 1 1
+    · simpa [e12] using hpos
+    · exact h20
+    · exact h21
+    · simpa [e22] using hlt
+
+/-- the fast path accepts an affine matrix that the general arm would refuse (what happens to it after a one-ulp
+perturbation of its last column) EXACTLY when the block guards pass and a translation cofactor fails the guard -/
+theorem M33_arms_disagree_iff (tmin : α) (a : M33 α) (ha : a.IsAffine) (ht0 : 0 < tmin) (ht1 : tmin < 1) :
+    ((∀ i j, |a.linear.toMat.adjugate i j| < |a.toMat.det| / tmin) ∧ ¬ ∀ i j, |a.toMat.adjugate i j| < |a.toMat.det| / tmin) ↔
+      ((∀ i j, |a.linear.toMat.adjugate i j| < |a.toMat.det| / tmin) ∧
+        (|a.toMat.det| / tmin ≤ |a.toMat.adjugate 2 0| ∨ |a.toMat.det| / tmin ≤ |a.toMat.adjugate 2 1|)) := by
+  rw [M33_general_guard_iff tmin a ha ht0 ht1]
+  constructor
+  · rintro ⟨hb, hn⟩
+    refine ⟨hb, ?_⟩
+    by_contra hc
+    rw [not_or, not_le, not_le] at hc
+    exact hn ⟨hb, hc.1, hc.2⟩
+  · rintro ⟨hb, hc⟩
+    refine ⟨hb, fun h => ?_⟩
+    rcases hc with hc | hc
+    · exact absurd h.2.1 (not_lt.mpr hc)
+    · exact absurd h.2.2 (not_lt.mpr hc)
+
+/-- the general arm never accepts an affine matrix that the fast path refuses -/
+theorem M33_general_guard_imp_affine_guard (tmin : α) (a : M33 α) (ha : a.IsAffine) (ht0 : 0 < tmin) (ht1 : tmin < 1)
+    (h : ∀ i j, |a.toMat.adjugate i j| < |a.toMat.det| / tmin) : ∀ i j, |a.linear.toMat.adjugate i j| < |a.toMat.det| / tmin :=
+  ((M33_general_guard_iff tmin a ha ht0 ht1).mp h).1
+
+/-- … and a failing translation cofactor means that this translation entry of the exact inverse is at least `1 / tmin` -/
+theorem M33_arms_disagree_entry (tmin : α) (a : M33 α) (ht0 : 0 < tmin) (hd : a.toMat.det ≠ 0) (j : Fin 3)
+    (h : |a.toMat.det| / tmin ≤ |a.toMat.adjugate 2 j|) : 1 / tmin ≤ |((a.toMat.det)⁻¹ • a.toMat.adjugate) 2 j| := by
+  have := (guard_iff_quot_lt (s := a.toMat.adjugate 2 j) hd ht0).not
+  rw [not_lt, not_lt] at this
+  rw [Matrix.smul_apply, smul_eq_mul]
+  exact this.mp h
+
+/-- non-affine 3×3, `|det| = 1/2 < 1`, all nine guards pass with `tmin = 2⁻¹⁰`: the guarded branch of the general arm -/
+example : ¬ (⟨1, 0, 1, 0, 1, 0, 0, 0, 1 / 2⟩ : M33 ℚ).IsAffine ∧ ¬ (1 : ℚ) ≤ |(⟨1, 0, 1, 0, 1, 0, 0, 0, 1 / 2⟩ : M33 ℚ).toMat.det| ∧
+    ∀ i j, |(⟨1, 0, 1, 0, 1, 0, 0, 0, 1 / 2⟩ : M33 ℚ).toMat.adjugate i j| < |(⟨1, 0, 1, 0, 1, 0, 0, 0, 1 / 2⟩ : M33 ℚ).toMat.det| / (1 / 1024) := by
+  refine ⟨by simp [M33.IsAffine], ?_, ?_⟩
+  · simp [M33.toMat, Matrix.det_fin_three]; norm_num
+  · intro i j
+    fin_cases i <;> fin_cases j <;> simp [M33.toMat, Matrix.det_fin_three, Matrix.adjugate_fin_three] <;> norm_num
+example : Gen.M33.inverse (1 / 1024 : ℚ) ⟨1, 0, 1, 0, 1, 0, 0, 0, 1 / 2⟩ = ⟨1, 0, -2, 0, 1, 0, 0, 0, 2⟩ := by
+  norm_num [Gen.M33.inverse, sabs]
+/-- general arm, `det = 1/8 ≠ 0`, the guard fires ⇒ identity (the overflow-singular outcome) -/
+example : Gen.M33.inverse (1 / 4 : ℚ) ⟨1, 0, 1, 0, 1, 0, 0, 0, 1 / 8⟩ = ⟨1, 0, 0, 0, 1, 0, 0, 0, 1⟩ := by
+  norm_num [Gen.M33.inverse, sabs]
+/-- the arms disagree on a concrete affine matrix (`tmin = 1/4`): block guards pass (`|det|/tmin = 2 > 1, 1/2`), the translation
+cofactor `adjugate 2 1 = -8` fails; the fast path inverts (translation entry `-16`, `|-16| ≥ 1/tmin = 4`) -/
+example : (⟨1, 0, 0, 0, 1 / 2, 0, 0, 8, 1⟩ : M33 ℚ).IsAffine ∧
+    (∀ i j, |(⟨1, 0, 0, 0, 1 / 2, 0, 0, 8, 1⟩ : M33 ℚ).linear.toMat.adjugate i j| < |(⟨1, 0, 0, 0, 1 / 2, 0, 0, 8, 1⟩ : M33 ℚ).toMat.det| / (1 / 4)) ∧
+    |(⟨1, 0, 0, 0, 1 / 2, 0, 0, 8, 1⟩ : M33 ℚ).toMat.det| / (1 / 4) ≤ |(⟨1, 0, 0, 0, 1 / 2, 0, 0, 8, 1⟩ : M33 ℚ).toMat.adjugate 2 1| := by
+  refine ⟨by simp [M33.IsAffine], ?_, ?_⟩
+  · intro i j
+    fin_cases i <;> fin_cases j <;> simp [M33.toMat, M33.linear, M22.toMat, Matrix.det_fin_three, Matrix.adjugate_fin_two] <;> norm_num
+  · simp [M33.toMat, Matrix.det_fin_three, Matrix.adjugate_fin_three]; norm_num
+example : Gen.M33.inverse (1 / 4 : ℚ) ⟨1, 0, 0, 0, 1 / 2, 0, 0, 8, 1⟩ = ⟨1, 0, 0, 0, 2, 0, 0, -16, 1⟩ := by
+  norm_num [Gen.M33.inverse, sabs]
+
 /-- a non-affine invertible matrix over ℚ with `|det| = 2 ≥ 1` -/
 example : ¬ (⟨1, 0, 1, 0, 1, 0, 0, 0, 2⟩ : M33 ℚ).IsAffine ∧ (1 : ℚ) ≤ |(⟨1, 0, 1, 0, 1, 0, 0, 0, 2⟩ : M33 ℚ).toMat.det| := by
   constructor
@@ -224,6 +376,18 @@ theorem M44_inverse_nonaffine (tmin : α) (a : M44 α) (hna : ¬ a.IsAffine) : G
   simp only [Gen.M44.inverse, ← ite_and, if_neg hna]
 
 theorem M44_invert_eq_inverse (tmin : α) (a : M44 α) : Gen.M44.invert tmin a = Gen.M44.inverse tmin a := rfl
+
+/-- affine arm, invertible matrix: the true inverse is returned iff `|det| ≥ 1` or every entry of the exact inverse of the
+3×3 linear block is below `1 / tmin` -/
+theorem M44_inverse_affine_true_iff (tmin : α) (ht : 0 < tmin) (a : M44 α) (ha : a.IsAffine) (hd : a.toMat.det ≠ 0) :
+    (Gen.M44.inverse tmin a).toMat = (a.toMat.det)⁻¹ • a.toMat.adjugate ↔
+      (1 ≤ |a.toMat.det| ∨ ∀ i j, |((a.linear.toMat.det)⁻¹ • a.linear.toMat.adjugate) i j| < 1 / tmin) := by
+  rw [M44_inverse_affine_spec tmin a ha, ite_eq_inverse_iff _ hd _ Or.inl]
+  refine or_congr Iff.rfl (forall_congr' fun i => forall_congr' fun j => ?_)
+  rw [Matrix.smul_apply, smul_eq_mul, ← M44_det_affine a ha]; exact guard_iff_quot_lt hd ht
+/-- affine 4×4, `det = 1/8 ≠ 0`, `tmin = 1/4`: a block guard fails, the fast path returns the identity -/
+example : Gen.M44.inverse (1 / 4 : ℚ) ⟨1, 0, 0, 0, 0, 1, 0, 0, 0, 0, 1 / 8, 0, 3, 4, 5, 1⟩ = ⟨1, 0, 0, 0, 0, 1, 0, 0, 0, 0, 1, 0, 0, 0, 0, 1⟩ := by
+  norm_num [Gen.M44.inverse, sabs]
 
 /-- affine 4×4 (scale 1/2, translation (3,4,5)): `|det| = 1/8 < 1`, the nine block guards pass with `tmin = 2⁻¹⁰` -/
 example : (⟨1 / 2, 0, 0, 0, 0, 1 / 2, 0, 0, 0, 0, 1 / 2, 0, 3, 4, 5, 1⟩ : M44 ℚ).IsAffine ∧
@@ -342,6 +506,58 @@ theorem M44_inverse_singular (tmin : α) (a : M44 α) (h : a.toMat.det = 0) : (G
     · simp at h1; linarith
     · have := h1 0 0; simp at this; exact absurd this (not_lt.mpr (abs_nonneg _))
   · rw [M44_inverse_nonaffine tmin a ha, M44_gjInverse_singular a h, M44_identity_toMat]
+
+/-! ## Matrix44::inverse: fast path against Gauss-Jordan on the SAME affine matrix -/
+section ArmsM44
+variable [BEq α] [LawfulBEq α]
+
+theorem M44_gjInverse_eq_adjugate (a : M44 α) (hd : a.toMat.det ≠ 0) : a.gjInverse.toMat = (a.toMat.det)⁻¹ • a.toMat.adjugate :=
+  eq_inv_smul_adjugate_of_mul_eq_one _ _ (M44_gjInverse_spec a hd).1
+theorem M33_gjInverse_eq_adjugate (a : M33 α) (hd : a.toMat.det ≠ 0) : a.gjInverse.toMat = (a.toMat.det)⁻¹ • a.toMat.adjugate :=
+  eq_inv_smul_adjugate_of_mul_eq_one _ _ (M33_gjInverse_spec a hd).1
+
+/-- on an affine matrix the fast path and Gauss-Jordan (what a one-ulp perturbation of the last column switches to) return
+the same matrix EXACTLY when `det = 0` (both: identity), `|det| ≥ 1`, or the nine block guards pass -/
+theorem M44_affine_vs_gj (tmin : α) (a : M44 α) (ha : a.IsAffine) :
+    (Gen.M44.inverse tmin a).toMat = a.gjInverse.toMat ↔
+      (a.toMat.det = 0 ∨ 1 ≤ |a.toMat.det| ∨ ∀ i j, |a.linear.toMat.adjugate i j| < |a.toMat.det| / tmin) := by
+  by_cases hd : a.toMat.det = 0
+  · simp only [hd, true_or, iff_true]
+    rw [M44_inverse_singular tmin a hd, M44_gjInverse_singular a hd, M44_identity_toMat]
+  · rw [M44_inverse_affine_spec tmin a ha, M44_gjInverse_eq_adjugate a hd]
+    by_cases hg : 1 ≤ |a.toMat.det| ∨ ∀ i j, |a.linear.toMat.adjugate i j| < |a.toMat.det| / tmin
+    · rw [if_pos hg]; simp [hd, hg]
+    · rw [if_neg hg]
+      simp only [hd, false_or, hg, iff_false]
+      intro h1
+      -- the exact inverse would be the identity, so the matrix is the identity and its determinant is 1
+      have hm : a.toMat = 1 := by
+        have h2 := (mul_inv_smul_adjugate a.toMat hd).1
+        rw [← h1, Matrix.mul_one] at h2
+        exact h2
+      exact hg (Or.inl (by rw [hm, Matrix.det_one, abs_one]))
+
+/-- when they differ: the fast path gives the identity, Gauss-Jordan a true inverse, and some entry of the exact inverse of
+the linear block is at least `1 / tmin` in magnitude -/
+theorem M44_arms_disagree (tmin : α) (a : M44 α) (ha : a.IsAffine) (ht0 : 0 < tmin)
+    (h : (Gen.M44.inverse tmin a).toMat ≠ a.gjInverse.toMat) :
+    (Gen.M44.inverse tmin a).toMat = 1 ∧ a.gjInverse.toMat * a.toMat = 1 ∧
+      ∃ i j, 1 / tmin ≤ |((a.linear.toMat.det)⁻¹ • a.linear.toMat.adjugate) i j| := by
+  rw [Ne, M44_affine_vs_gj tmin a ha, not_or, not_or] at h
+  obtain ⟨hd, h1, hg⟩ := h
+  refine ⟨?_, (M44_gjInverse_spec a hd).1, ?_⟩
+  · rw [M44_inverse_affine_spec tmin a ha, if_neg (not_or.mpr ⟨h1, hg⟩)]
+  · have hdl : a.linear.toMat.det ≠ 0 := by rwa [← M44_det_affine a ha]
+    rw [M44_det_affine a ha] at hg
+    rw [guards_iff_inverse_entries_lt _ tmin ht0 hdl] at hg
+    by_contra hc
+    exact hg fun i j => lt_of_not_ge fun hij => hc ⟨i, j, hij⟩
+
+end ArmsM44
+
+/-- the matrix of the `example` after `M44_inverse_affine_true_iff` (fast path: identity): Gauss-Jordan inverts it -/
+example : (⟨1, 0, 0, 0, 0, 1, 0, 0, 0, 0, 1 / 8, 0, 3, 4, 5, 1⟩ : M44 ℚ).gjInverse = ⟨1, 0, 0, 0, 0, 1, 0, 0, 0, 0, 8, 0, -3, -4, -40, 1⟩ := by
+  decide +kernel
 
 /-- Gauss-Jordan on a concrete matrix that needs a row swap at the first stage: the model returns the exact inverse -/
 example : (⟨0, 1, 0, 2, 0, 0, 0, 0, 4⟩ : M33 ℚ).gjInverse = ⟨0, 1 / 2, 0, 1, 0, 0, 0, 0, 1 / 4⟩ := by decide +kernel
